@@ -144,7 +144,11 @@ func report(eng *Engine, prop, tier string, seed int, verif, outDir string, cfg 
 		"callees do not retain pointers to caller locals beyond the call; interior pointers that are stored and reloaded are not tracked as aliases; append is modelled as allocating",
 		"package-level variables are treated as constants during a call",
 		"goroutines, channels, select, unsafe, reflection are outside the model (functions using them are listed as abstracted)",
-		"pointer receivers are assumed non-nil",
+		"pointer receivers are assumed non-nil; a pointer, map, function or interface captured by a function literal from a never-reassigned parameter inherits that parameter's assumptions",
+		"variables captured by reference are private to the defining function and its function literals (a callee reaches them only by running a literal); arrays made by a function and never stored, captured or handed to a call keep their elements across that call",
+		"frame clauses on repository functions (pure, frame none, modifies, preserves-args) are declarations: they are used at call sites and not proved",
+		"library sentinel errors (io.EOF, io.ErrUnexpectedEOF, fs.SkipDir, fs.SkipAll, …) and package-level errors.New values are non-nil, pairwise distinct values of the errors package's string-error type",
+		"counterexample replay (replay.go) runs generated tests against the real code; a violation is marked confirmed only when the real code shows the failure",
 	}
 	assumptions = append(assumptions, cfg.Assumptions...)
 	var trusted []string
